@@ -45,7 +45,7 @@ func newSessionManager(b *Broker, store storage) *SessionManager {
 	sm := &SessionManager{
 		broker:  b,
 		store:   store,
-		storeCh: make(chan SessionStore),
+		storeCh: make(chan SessionStore, 1024),
 		done:    make(chan struct{}),
 	}
 	go sm.doStore()
